@@ -93,10 +93,14 @@ def job(jc, spec):
     apkmod.logger = NullLogger()
     A = apkmod.APK
     vals, L = make(fmt, 's')
-    ID = [fresh_uint('id%d' % i, 32) for i in range(3)]
-    raw = SBytes(archive([(le_bytes(ID[i], 4), vals[i]) for i in range(3)]))
+    ID = [fresh_uint('id%d' % i, 32) for i in range(4)]
+    # a fourth pair with an opaque value behind the three signature blocks: its id is an unknown id or repeats an earlier
+    # one (it is never the first block of a scheme, so its value is never parsed)
+    vals = vals + [list(b'opaque-4')]
+    raw = SBytes(archive([(le_bytes(ID[i], 4), vals[i]) for i in range(4)]))
     keys = [V2] if fmt == 'v2' else [V3, V31]
-    eng = jc.new_engine()
+    pre4 = z3.Or(z3.And(ID[3].e != V2, ID[3].e != V3, ID[3].e != V31), z3.Or([ID[3].e == ID[j].e for j in range(3)]))
+    eng = jc.new_engine(pre=[pre4])
     label = 'format ' + fmt
 
     def go():
@@ -133,11 +137,11 @@ def job(jc, spec):
         obs = {}
         f2, f3, f31 = r['flags']
         obs['presence flags'] = z3.And(*[(z3.Or([x.e == k for x in ID]) == z3.BoolVal(bool(f))) for f, k in ((f2, V2), (f3, V3), (f31, V31))])
-        dupw = z3.Or(ID[0].e == ID[1].e, ID[0].e == ID[2].e, ID[1].e == ID[2].e)
+        dupw = z3.Or([ID[i].e == ID[j].e for i in range(4) for j in range(i + 1, 4)])
         obs['duplicate ids flagged'] = dupw == z3.BoolVal(bool(r['dup']))
         bl = r['blocks']
-        obs['blocks in file order with their data'] = z3.And([z3.BoolVal(len(bl) == 3)] + [
-            z3.And(bv(b[0]) == ID[i].e, beq(list(b[2]), vals[i])) for i, b in enumerate(bl[:3])])
+        obs['blocks in file order with their data'] = z3.And([z3.BoolVal(len(bl) == 4)] + [
+            z3.And(bv(b[0]) == ID[i].e, beq(list(b[2]), vals[i])) for i, b in enumerate(bl[:4])])
         for name, key in (('v2', V2), ('v3', V3), ('v31', V31)):
             if name not in r:
                 continue
@@ -174,7 +178,7 @@ def job(jc, spec):
 def run(ctx):
     hook.install(symkeys=('androguard.core.apk',))
     ctx.functions_encoded = FUNCS
-    ctx.bounds = dict(pairs=3, pair_ids='all 2^96 id triples', signers='block 0: 2 signers (leaves of the first symbolic: algorithm '
+    ctx.bounds = dict(pairs=4, pair_ids='all 2^96 id triples of the three signature blocks + a fourth pair whose id is unknown or repeats an earlier one', signers='block 0: 2 signers (leaves of the first symbolic: algorithm '
                       'ids, digest, certificate, attributes, signature, public key, SDK bounds), blocks 1-2: one signer each',
                       lengths='concrete (layout fixed by the template)', formats=['v2', 'v3 / v3.1'])
     ctx.stubs = ['APK built with __new__ over the raw archive tail', 'SymStruct / SymIO', 'NullLogger']
@@ -198,7 +202,10 @@ def _concrete(w):
         s0b = signer(fmt, [(u32(0x0104), b'dd')], [b'cB'], b'', [(u32(0x0202), b's')], b'kB', (u32(1), u32(2)))
         vals[0] = block_value(fmt, [s0, s0b])
         L = Lw
-    raw = bytes(archive([(u32(w['ids'][i] & 0xffffffff), vals[i]) for i in range(3)]))
+    ids = list(w['ids'])
+    if len(ids) > 3:
+        vals = vals + [list(b'opaque-4')]
+    raw = bytes(archive([(u32(ids[i] & 0xffffffff), vals[i]) for i in range(len(ids))]))
     a = A.__new__(A)
     a._APK__raw = raw
     a._v2_blocks = []
@@ -227,7 +234,7 @@ def replay(w):
     bad = []
     if got['flags'] != [V2 in ids, V3 in ids, V31 in ids]:
         bad.append('flags %r for ids %r' % (got['flags'], [hex(x) for x in ids]))
-    if got['dup'] != (len(set(ids)) < 3):
+    if got['dup'] != (len(set(ids)) < len(ids)):
         bad.append('duplicate flag %r' % got['dup'])
     if got['ids'] != ids:
         bad.append('block ids %r' % got['ids'])
